@@ -1021,6 +1021,11 @@ data_connection_ptr client::process_port_command(std::string_view command, repli
 
 std::string client::make_port_command(const boost::asio::ip::tcp::endpoint & endpoint)
 {
+    if (!endpoint.address().is_v4())
+    {
+        throw ftp_exception("Cannot make the PORT command. The IP address type is invalid.");
+    }
+
     std::string command = "PORT";
     command.append(" ");
 
